@@ -5,6 +5,7 @@ Property theorems only (obligations of ./check C04).
 import LfsModel.Gen
 import LfsModel.Checkout
 import LfsModel.PtrRound4
+import LfsModel.PathList
 
 namespace C04
 open Lfs Co
@@ -195,5 +196,26 @@ theorem tofile_independent_of_what_is_there (recorded : Ptr) (st : Store) (conte
   split
   · rename_i h0; exact absurd h0 hs
   · simp [h]
+
+/-! ### the include / exclude LISTS (lfs.fetchinclude, lfs.fetchexclude, -I, -X) -/
+
+/-- a comma separated list means the patterns it spells: blanks before the list, after it and on either side
+    of every comma change nothing, for every number of elements and every amount of padding -/
+theorem list_elements_are_the_patterns_spelt (lead trail : PathList.Bytes) (es : List PathList.Padded) (last : PathList.Padded)
+    (hlead : ∀ x ∈ lead, PathList.isSpace x = true) (htrail : ∀ x ∈ trail, PathList.isSpace x = true)
+    (hok : ∀ e ∈ es ++ [last], e.Ok 44) (hfirst : ∀ f rest, es ++ [last] = f :: rest → f.pre = [])
+    (hlast : last.post = []) :
+    PathList.cleanPaths (lead ++ PathList.join 44 ((es ++ [last]).map PathList.Padded.text) ++ trail) 44
+      = (es ++ [last]).map fun e => PathList.stripSlash e.pat :=
+  PathList.cleanPaths_padded 44 lead trail es last hlead htrail hok hfirst hlast
+
+/-- a list of nothing but blanks selects nothing (it is not the pattern `.` or the empty pattern) -/
+theorem blank_list_is_empty (pad : PathList.Bytes) (h : ∀ x ∈ pad, PathList.isSpace x = true) :
+    PathList.cleanPaths pad 44 = [] := by
+  simp [PathList.cleanPaths, PathList.trim_blank pad h]
+
+/-- exactly one trailing slash of an element is dropped -/
+theorem list_element_trailing_slash (p : PathList.Bytes) : PathList.stripSlash (p ++ [47]) = p :=
+  PathList.stripSlash_once p
 
 end C04
